@@ -19,6 +19,38 @@ RULE = ("(a) hostile streams: CRC-valid data frames with claimed fragment counts
         "every tick the probe is checked: receive alloc <= ceil(max_receive_alloc), assembly bytes + undelivered payload bytes <= ceil(max_receive_alloc), send alloc <= "
         "ceil(peer limit), packets outstanding <= window. Non-trivial: some receive allocation was in use. Distinct by (limits, windows, peak usage bucket, hostile kinds).")
 
+def hostile_alias(r, it, codec, tier, i):
+    """the same sequence id named with two different channels: the receive window is pinned by a missing packet, complete packets
+    that wait for it fill the allocation, and stray datagrams re-use their sequence ids under the channel id of a channel that has
+    already moved on. Whatever the receiver does with them, what it holds stays within its limit."""
+    cfg = pick_cfg(r)
+    k = r.pick([3, 4, 4, 6]); cfg["allocA"] = cfg["allocB"] = k * F; cfg["pw"] = r.pick([16, 64])
+    sim = Sim(r, cfg, inter=it)
+    sim.tick += 1; sim.set_time(5_000_000)
+    pr = sim.probe("B")
+    pb = int(pr["pr"][0]); fid = [int(pr["aq"][0])]
+    X, Y = r.pick([(0, 1), (2, 0), (1, 3)])
+    def inject(seq, chan, wpl, cpl, ln):
+        txt = "data %d 0 1 %d %d %d %d 0 0 %s" % (fid[0] & 0xFFFFFFFF, (pb + seq) & 0xFFFFF, chan, wpl, cpl, "-" if ln == 0 else "@%d:%d" % (900 + seq + 40 * i, ln))
+        fid[0] += 1
+        hx = codec.op("enc " + txt)
+        if len(hx) > 20:
+            sim.op("B raw " + hx)
+    T = k + r.range(1, 3)
+    inject(T, X, T, 0, 10)                               # channel X moves on to beyond T; the window stays pinned behind id 0
+    sim.op("B step"); sim.op("B recv"); sim.probe("B")
+    for rnd in range(r.range(2, 4)):
+        for S in range(1, k + 1):
+            inject(S, Y, S, S, F)                        # complete, held: waits for id 0 on its channel
+        sim.op("B step"); sim.op("B recv"); sim.probe("B")
+        for S in range(1, k + 1):
+            inject(S, X, S, 0, r.pick([10, F]))          # stray: same ids, channel X (already beyond them)
+        sim.op("B step"); sim.op("B recv"); sim.probe("B")
+        for S in range(T + 1 + rnd * k, T + 1 + (rnd + 1) * k):
+            inject(S, Y, S, S, F)                        # more data that would only fit if allocation had been handed back
+        sim.op("B step"); sim.op("B recv"); sim.probe("B")
+    return sim
+
 def hostile_mem(r, it, codec, tier, i):
     cfg = pick_cfg(r)
     cfg["allocA"] = cfg["allocB"] = r.pick([3000, 6000, 20000, 100000])
@@ -130,6 +162,8 @@ def streams(rng, tier, ctx):
                     sim.settled_at = sum(1 for op in sim.ops if op.endswith(" probe")) + 1
                 for ep in ("A", "B"):
                     sim.probe(ep)
+            elif i % 10 == 6:
+                sim = hostile_alias(r, it, codec, tier, i)
             elif i % 3 != 2:
                 sim = hostile_mem(r, it, codec, tier, i)
             else:
